@@ -57,3 +57,16 @@ Definition first_state (t : table) : string := match t with [] => "" | r :: _ =>
    (which determines every Is<State>() answer) *)
 Definition table_interp (t : table) (evs : list string) (gv : gval) : list (list cb * string) :=
   ([CEntry (first_state t) startup_event], first_state t) :: interp_from t gv 0 (first_state t) evs.
+
+(* The C# machine has no no-transition hook: when no row fires (or the pair is not listed) nothing happens. *)
+Fixpoint step_rows_quiet (gv : gval) (n : nat) (cur e : string) (rows : list row) : list cb * string * nat :=
+  match rows with
+  | [] => ([], cur, n)
+  | r :: rest =>
+      match opt (r_guard r) with
+      | None => (fire r cur e, n)
+      | Some g =>
+          if gv n g then (CGuard g e :: fst (fire r cur e), snd (fire r cur e), S n)
+          else let '(t, s, n') := step_rows_quiet gv (S n) cur e rest in (CGuard g e :: t, s, n')
+      end
+  end.
